@@ -365,6 +365,25 @@ func (p *Prog) nilnessAt(e ssa.Value, wantNil bool, b *ssa.BasicBlock) bool {
 			return true
 		}
 	}
+	// the value spilled into a variable (a named result, a variable captured by a closure): a test of a load whose
+	// reaching store is that spill is a test of the value itself
+	for _, r := range *refs {
+		st, ok := r.(*ssa.Store)
+		if !ok || st.Val != e {
+			continue
+		}
+		al, ok := st.Addr.(*ssa.Alloc)
+		if !ok {
+			continue
+		}
+		for _, rr := range *al.Referrers() {
+			if u, ok := rr.(*ssa.UnOp); ok && u.X == ssa.Value(al) && u != e && reachingStore(al, u) == st {
+				if p.nilnessAt(u, wantNil, b) {
+					return true
+				}
+			}
+		}
+	}
 	return false
 }
 
@@ -429,7 +448,24 @@ func (p *Prog) mayBeNilErr(v ssa.Value, b *ssa.BasicBlock, depth int) bool {
 			if a, ok := x.X.(*ssa.Alloc); ok {
 				// named result / local spilled (defer): consult the store that reaches this load
 				if s := reachingStore(a, x); s != nil {
-					return p.mayBeNilErr(s.Val, s.Block(), depth+1)
+					// (the stored value is immutable: what is known about it where the load happens counts too)
+					if p.nonNilAt(s.Val, b) {
+						return false
+					}
+					// every load with the same reaching store reads the same value: a test of a sibling load counts
+					for _, rr := range *a.Referrers() {
+						sib, ok := rr.(*ssa.UnOp)
+						if !ok || sib.X != ssa.Value(a) || reachingStore(a, sib) != s {
+							continue
+						}
+						if p.nonNilAt(sib, b) || p.equalsSentinelAt(sib, b) {
+							return false
+						}
+					}
+					if p.equalsSentinelAt(s.Val, b) {
+						return false
+					}
+					return p.mayBeNilErr(s.Val, s.Block(), depth+1) && p.mayBeNilErr(s.Val, b, depth+1)
 				}
 				stores := storesTo(a)
 				if len(stores) == 0 {
@@ -454,24 +490,34 @@ func (p *Prog) mayBeNilErr(v ssa.Value, b *ssa.BasicBlock, depth int) bool {
 		return false
 	}
 	// v == <package-level sentinel> known true at b
-	if refs := v.Referrers(); refs != nil {
-		for _, r := range *refs {
-			bo, ok := r.(*ssa.BinOp)
-			if !ok || bo.Op != token.EQL {
-				continue
-			}
-			other := bo.X
-			if other == v {
-				other = bo.Y
-			}
-			if u, ok := other.(*ssa.UnOp); ok && u.Op == token.MUL {
-				if _, isG := u.X.(*ssa.Global); isG && p.condAt(bo, true, b) {
-					return false
-				}
+	if p.equalsSentinelAt(v, b) {
+		return false
+	}
+	return true
+}
+
+// equalsSentinelAt: a comparison v == <package-level variable> is known true at b (the sentinel errors are non-nil).
+func (p *Prog) equalsSentinelAt(v ssa.Value, b *ssa.BasicBlock) bool {
+	refs := v.Referrers()
+	if refs == nil {
+		return false
+	}
+	for _, r := range *refs {
+		bo, ok := r.(*ssa.BinOp)
+		if !ok || bo.Op != token.EQL {
+			continue
+		}
+		other := bo.X
+		if other == v {
+			other = bo.Y
+		}
+		if u, ok := other.(*ssa.UnOp); ok && u.Op == token.MUL {
+			if _, isG := u.X.(*ssa.Global); isG && p.condAt(bo, true, b) {
+				return true
 			}
 		}
 	}
-	return true
+	return false
 }
 
 func storesTo(a *ssa.Alloc) []*ssa.Store {
